@@ -29,11 +29,12 @@ FULL STATEMENT (DESIGN §4 C15) and what is proved here:
          business and is taken from the real front end (differential)
   §8     search_print_read (`NonTerminalSearch.format_as_spec` for every search class vs the selector
          sub-grammar)                                                          — PROVED: the reader
-         returns the paren-free reading `normSel`, which is the search itself for every search the
-         front end builds from a paren-free text.  That `normSel s` FINDS what `s` finds is NOT
-         proved, and FALSE for a multi-entry `{…}` group on a parenthesised dotted base (the order of
-         the found trees changes: `C15_search_parens_matter`, finding C15/selector-parens-dropped); for
-         the other searches it is checked differentially (real `find` on real trees)
+         returns the normal form `normSel` (dots nested to the left, nothing else changed), which is the
+         search itself for every search in normal form; the reading is in normal form and prints as the
+         same tokens.  That `normSel s` FINDS what `s` finds (`<a>.(<b>.<c>)` vs `(<a>.<b>).<c>`: `.` and
+         `..` are associative) is NOT proved: differential (real `find` on real trees).  The printer
+         before 9a10ad80 dropped the parentheses of a group's base, which does change what is found
+         (`C15_search_parens_matter`, F66 fixed)
   NOT proved (differential only, every run): the boolean / comparison / quantifier layer of constraints
   ABOVE the selectors (`Constraint.format_as_spec`: open findings F18 legacy quantifier, F21 `not` over a
   comparison, F22 parenthesised boolean group re-read as one expression — root causes in the front-end
@@ -314,18 +315,22 @@ theorem C15_regex_formfeed_rejected :
 `Repetition.bounds_constraint.expr_data_*` and `LiteralGenerator.call` are Python text with
 placeholder names for the selector occurrences; `format_as_spec` substitutes each placeholder by its
 search's text, the front end gives each occurrence a fresh placeholder again.  The model keeps the
-structure (`Expr`: text chunks carried verbatim + selector occurrences) and drops the names. -/
+structure (`Expr`: text chunks carried verbatim + selector occurrences) and drops the names.
+(The selector printer is the one of the current source: `Generated.printCfg.parenSelBase = true`,
+part of `C15_generated_printer_is_sound`.) -/
 
 /-- **the payload survives**: every text chunk verbatim and in place, every selector occurrence as its
-    paren-free reading -/
+    normal form -/
 theorem C15_expression_read_print (e : Expr) (h : wfE e = true) :
-    readE (printE e) = some (normE e) :=
+    readE (printE Generated.printCfg.parenSelBase e) = some (normE e) :=
   readE_printE e h
 
 /-- … and the expression read back prints as the same text -/
-theorem C15_expression_print_stable (e : Expr) : printE (normE e) = printE e := printE_normE e
+theorem C15_expression_print_stable (e : Expr) :
+    printE Generated.printCfg.parenSelBase (normE e) = printE Generated.printCfg.parenSelBase e :=
+  printE_normE e
 
-/-- **a production with a generator** `<a> ::= … := f(<b>, <c>.<d>)` is read back as the same
+/-- **a production with a generator** `<a> ::= … := f(<b>, <c>)` is read back as the same
     production: right-hand side in normal form, the generator expression with its symbol arguments -/
 theorem C15_rule_read_print (cap : Nat) (r : Rule) (h : wfRule cap r = true) :
     readRule cap (printRule Generated.printCfg r) = some (normRule r) :=
@@ -350,74 +355,77 @@ example : readG 20 (printG Generated.printCfg exGrammar) = some (normG exGrammar
 
 BOUNDARY: these theorems are about a selector term on its own.  The layer above — the Python
 expression around the placeholders, comparisons, `and` / `or` / `not`, quantifiers — is NOT proved
-(open findings F18, F21, F22 live there). -/
+(open findings F18, F21, F22, F67 live there).  The printer is the one of the current source
+(`pb = true`: the base of a group goes through `format_as_base`, fix 9a10ad80). -/
 
-/-- **reading a printed search back** yields its paren-free reading: dots nested to the left, a
-    `[…]` / `{…}` group attached to the last selection.  For every search that prints as a selector
-    (`wfSel`: non-empty groups, `*` entries, no group on a selection that already has one). -/
+/-- **reading a printed search back** yields its normal form: the same search with the dots nested to
+    the left (`<a>.(<b>.<c>)` is printed `<a>.<b>.<c>` and read `(<a>.<b>).<c>`), everything else —
+    every `[…]` / `{…}` group with its slices / entries and its base — in place.  For every search the
+    spec language can express (`wfSel`: non-empty groups, `*` entries). -/
 theorem C15_search_print_read (s : PS.Sel) (h : PS.wfSel s = true) :
-    PS.readSel (PS.printSel s) = some (PS.normSel s) :=
+    PS.readSel (PS.printSel true s) = some (PS.normSel s) :=
   PS.readSel_printSel s h
 
-/-- **exact round trip** for every search of the shape the front end builds from a paren-free text
-    (`flat`: each attribute of a dot is a non-terminal with at most one group) -/
-theorem C15_search_print_read_exact (s : PS.Sel) (h : PS.wfSel s = true) (hf : PS.flat s = true) :
-    PS.readSel (PS.printSel s) = some s := by
-  rw [PS.readSel_printSel s h, PS.normSel_flat s hf]
+/-- **exact round trip** for every search in normal form (what the front end builds from a text
+    without redundant parentheses) -/
+theorem C15_search_print_read_exact (s : PS.Sel) (h : PS.wfSel s = true) (hf : PS.isNorm s = true) :
+    PS.readSel (PS.printSel true s) = some s := by
+  rw [PS.readSel_printSel s h, PS.normSel_isNorm s hf]
 
-/-- the normal form is of that shape, and prints as the same tokens (parentheses are all that is
-    forgotten): `print ∘ read ∘ print = print` -/
-theorem C15_search_norm_flat_and_stable (s : PS.Sel) (h : PS.wfSel s = true) :
-    PS.flat (PS.normSel s) = true ∧ PS.printSel (PS.normSel s) = PS.printSel s :=
-  ⟨PS.flat_normSel s h, PS.printSel_normSel s⟩
+/-- the reading is in normal form, and prints as the same tokens: `print ∘ read ∘ print = print` -/
+theorem C15_search_norm_stable (s : PS.Sel) :
+    PS.isNorm (PS.normSel s) = true ∧ PS.printSel true (PS.normSel s) = PS.printSel true s :=
+  ⟨PS.isNorm_normSel s, PS.printSel_normSel s⟩
 
 /-- `*<a>…`, `|<a>…|`, `len(*<a>…)`: the whole `selector_length` -/
 theorem C15_selector_print_read (t : PS.Top) (h : PS.wfTop t = true) :
-    PS.readTop (PS.printTop t) = some (PS.normTop t) :=
+    PS.readTop (PS.printTop true t) = some (PS.normTop t) :=
   PS.readTop_printTop t h
 
 /-- slices with omitted bounds keep their places: `[:2]` is not `[2:]`, `[::2]` keeps its step
     (`decide`: finite witnesses) -/
 theorem C15_slice_bounds_keep_their_places :
-    PS.readSel (PS.printSel (.item (.rule "<a>") [.rng none (some 2) none])) = some (.item (.rule "<a>") [.rng none (some 2) none]) ∧
-    PS.readSel (PS.printSel (.item (.rule "<a>") [.rng (some 2) none none])) = some (.item (.rule "<a>") [.rng (some 2) none none]) ∧
-    PS.readSel (PS.printSel (.item (.rule "<a>") [.rng none none (some 2), .idx 0, .rng none none none]))
+    PS.readSel (PS.printSel true (.item (.rule "<a>") [.rng none (some 2) none])) = some (.item (.rule "<a>") [.rng none (some 2) none]) ∧
+    PS.readSel (PS.printSel true (.item (.rule "<a>") [.rng (some 2) none none])) = some (.item (.rule "<a>") [.rng (some 2) none none]) ∧
+    PS.readSel (PS.printSel true (.item (.rule "<a>") [.rng none none (some 2), .idx 0, .rng none none none]))
       = some (.item (.rule "<a>") [.rng none none (some 2), .idx 0, .rng none none none]) ∧
-    PS.printSel (.item (.rule "<a>") [.rng none (some 2) none]) ≠ PS.printSel (.item (.rule "<a>") [.rng (some 2) none none]) := by
+    PS.printSel true (.item (.rule "<a>") [.rng none (some 2) none]) ≠ PS.printSel true (.item (.rule "<a>") [.rng (some 2) none none]) := by
   decide +kernel
 
-/-- **finding C15/selector-parens-dropped** — the paren-free reading does NOT always find what the search
-    finds: `(<start>.<a>.<c>){*<x>, *<y>}` prints `<start>.<a>.<c>{*<x>, *<y>}`, which is read back as
-    `<start>.<a>.(<c>{*<x>, *<y>})`; a `{…}` group looks up its entries one after the other over ALL base
-    trees, so on the tree of `prqs` (`<start> ::= <a> <a>; <a> ::= <c>; <c> ::= <x> <y>`) the search finds
-    `p q r s` and its printed form `p r q s` (same trees, other order — visible through a `*` selection).
+/-- **the printer before 9a10ad80 (finding F66, fixed)**, machine-checked counterexample: it printed
+    the base of a group bare, so `(<start>.<a>.<c>){*<x>, *<y>}` came out as `<start>.<a>.<c>{*<x>, *<y>}`
+    and was read back as `<start>.<a>.(<c>{*<x>, *<y>})`; a `{…}` group looks up its entries one after
+    the other over ALL base trees, so on the tree of `prqs` (`<start> ::= <a> <a>; <a> ::= <c>;
+    <c> ::= <x> <y>`) the search finds `p q r s` and the search read back `p r q s` (same trees, other
+    order — visible through a `*` selection).  Under the current printer it is read back as itself.
     On the shared model of `find` (`Model/Search.lean`); `decide +kernel`: a finite witness. -/
 def exParens : PS.Sel :=
   .sel (.attr (.attr (.rule "<start>") (.rule "<a>")) (.rule "<c>")) [⟨"<x>", false, none⟩, ⟨"<y>", false, none⟩]
+def exParensOld : PS.Sel :=
+  .attr (.attr (.rule "<start>") (.rule "<a>")) (.sel (.rule "<c>") [⟨"<x>", false, none⟩, ⟨"<y>", false, none⟩])
 def exParensTree : Tree :=
   let c (x y : Nat) : Tree := .node "<c>" [.node "<x>" [.leaf (.text [x])], .node "<y>" [.leaf (.text [y])]]
   .node "<start>" [.node "<a>" [c 112 114], .node "<a>" [c 113 115]]
 
 theorem C15_search_parens_matter :
-    PS.wfSel exParens = true ∧
-    PS.normSel exParens = .attr (.attr (.rule "<start>") (.rule "<a>"))
-      (.sel (.rule "<c>") [⟨"<x>", false, none⟩, ⟨"<y>", false, none⟩]) ∧
+    PS.readSel (PS.printSel false exParens) = some exParensOld ∧
     PS.foundLeaves exParens exParensTree
       = some [[.text [112]], [.text [113]], [.text [114]], [.text [115]]] ∧
-    PS.foundLeaves (PS.normSel exParens) exParensTree
-      = some [[.text [112]], [.text [114]], [.text [113]], [.text [115]]] := by
+    PS.foundLeaves exParensOld exParensTree
+      = some [[.text [112]], [.text [114]], [.text [113]], [.text [115]]] ∧
+    PS.readSel (PS.printSel true exParens) = some exParens := by
   decide +kernel
 
-/-- non-vacuity: `<a>..<b>.<c>{*<d>, *<e>: 0:2}[1]`-like terms; a parenthesised source
-    `<a>.(<b>.<c>)[0]` is read back as `(<a>.<b>).<c>[0]`; `(<a>[0])[1]` is outside `wfSel` and its
-    printed form `<a>[0][1]` is not a selector -/
+/-- non-vacuity: `(<a>..<b>.<c>){*<d>, *<e>: 0:2}` is in normal form and read back as itself; a
+    parenthesised attribute `<a>.((<b>.<c>)[0])` keeps its group on the dotted base and loses only the
+    redundant nesting of the dots; a group on a group `(<a>[0])[1]` is read back as itself -/
 def exSel : PS.Sel :=
   .sel (.attr (.desc (.rule "<a>") (.rule "<b>")) (.rule "<c>")) [⟨"<d>", false, none⟩, ⟨"<e>", false, some (.rng (some 0) (some 2) none)⟩]
-example : PS.wfSel exSel = true ∧ PS.flat exSel = false := by decide
-example : PS.readSel (PS.printSel exSel) = some (PS.normSel exSel) := C15_search_print_read exSel (by decide)
-example : PS.normSel (.attr (.rule "<a>") (.item (.attr (.rule "<b>") (.rule "<c>")) [.idx 0]))
-    = .attr (.attr (.rule "<a>") (.rule "<b>")) (.item (.rule "<c>") [.idx 0]) := by decide
-example : PS.wfSel (.item (.item (.rule "<a>") [.idx 0]) [.idx 1]) = false ∧
-    PS.readSel (PS.printSel (.item (.item (.rule "<a>") [.idx 0]) [.idx 1])) = none := by decide +kernel
+example : PS.wfSel exSel = true ∧ PS.isNorm exSel = true := by decide
+example : PS.readSel (PS.printSel true exSel) = some exSel := C15_search_print_read_exact exSel (by decide) (by decide)
+example : PS.normSel (.attr (.rule "<a>") (.attr (.item (.attr (.rule "<b>") (.rule "<c>")) [.idx 0]) (.rule "<d>")))
+    = .attr (.attr (.rule "<a>") (.item (.attr (.rule "<b>") (.rule "<c>")) [.idx 0])) (.rule "<d>") := by decide
+example : PS.readSel (PS.printSel true (.item (.item (.rule "<a>") [.idx 0]) [.idx 1]))
+    = some (.item (.item (.rule "<a>") [.idx 0]) [.idx 1]) := by decide +kernel
 
 end FV
